@@ -46,9 +46,11 @@ class C03(Prop):
     id = 'C03'
     stages = ('S1', 'S25', 'S6')
     rule = 'grids over {space,-,|,+}: every grid up to 3x3, 2x4, 4x2 (thorough; quick: every grid up to 2x3/3x2 and a sample of 3x3), 1x8 and 8x1 rows/columns, random grids up to 14x8 at densities 0.2-0.9, with and without label characters; non-trivial when the grid has at least one drawing character'
+    coq_targets_thorough = ('Props/C03Big.vo',)
     level_text = ('Theorem C03_table_matches_spec: for the three characters - | + and every 8-neighbourhood over {space,-,|,+,label} (5^8 x 3 cases, swept inside Coq on the translated table) the fragments the table emits are exactly the strokes of the specification transcribed from the property text, all axis-parallel, no arcs/circles/polygons; '
-                  'with the merge theorems of C09 (merging keeps the union of collinear touching segments) and the rectangle lemma (an endorsed rect is the outline of its four edge lines). The whole-grid statement is decided by correspondence and oracle (exact atom sets).')
-    level_note = 'partial: per-cell table equality is proved by exhaustive sweep; the lift through merging and endorsement to whole grids relies on correspondence plus oracle'
+                  'C03_small_grids_whole_recognition (and, in the thorough tier and at setup, C03_grids_whole_recognition): for EVERY grid of the stated shapes (2x2 with labels, 4x1, 1x4; 3x2, 2x3, 5x1, 1x5) the text stage reads the grid as its cells and the whole recognition (grouping, tables, three merge loops, contact groups, rectangle endorsement, catalogue lookups) yields only solid lattice lines, plain rectangles and text whose half-cell strokes are exactly the union of the per-character strokes of the specification; '
+                  'with the merge theorems of C09 (merging keeps the union of collinear touching segments, every length) and the rectangle lemma (an endorsed rect is the outline of its four edge lines). Larger grids are decided by correspondence and oracle (exact atom sets).')
+    level_note = 'partial: per-cell table equality and the whole recognition on the stated small grids are proved by exhaustive sweeps inside Coq; larger grids rely on the merge/rectangle theorems plus correspondence and oracle'
     def make(self, gen, text):
         return Item(gen, {'main': Run(text, '', 'settings')}, {'text': text}, lambda t: self.make(gen, t))
     def items(self, rng, tier):
